@@ -158,12 +158,17 @@ func (h *AcceptHandle) Stop() {
 }
 
 // GRPCAcceptServe runs AcceptAndServe(id) in a goroutine with a PingPong
-// service answering "<id>/<nonce>".
-func GRPCAcceptServe(b *plugin.GRPCBroker, id uint32, nonce string) *AcceptHandle {
+// service answering "<id>/<nonce>". slow delays the server factory.
+func GRPCAcceptServe(b *plugin.GRPCBroker, id uint32, nonce string, slow ...time.Duration) *AcceptHandle {
 	h := &AcceptHandle{Done: make(chan struct{})}
 	go func() {
 		defer close(h.Done)
 		b.AcceptAndServe(id, func(opts []grpc.ServerOption) *grpc.Server {
+			// a server factory that takes a while (loading certificates, ...): the
+			// listener is registered but nobody accepts on it yet
+			for _, d := range slow {
+				time.Sleep(d)
+			}
 			s := grpc.NewServer(opts...)
 			grpctest.RegisterPingPongServer(s, &pingPong{msg: fmt.Sprintf("%d/%s", id, nonce)})
 			h.mu.Lock()
